@@ -62,17 +62,52 @@ NOT_STRICT = {
     "QMP": "multilevel (as QRRT)",
     "QMPStar": "multilevel (as QRRT)",
 }
+# planners exempt from the strict form whose reported path *vertices* are nevertheless states they validated one by one
+# (sampled valid states, or the `lastValid` state of a 3-argument checkMotion): an invalid vertex is a failure (clause
+# `vertex`).  Not in this list: PDST (split points), AnytimePathShortening (simplifier's interpolated states), RRT /
+# RRTConnect with intermediate states (O1), the multilevel planners.
+VERTEX_VALID = {"KPIECE1", "BKPIECE1", "LBKPIECE1", "STRIDE", "RLRT", "BiRLRT", "EITstar", "EIRMstar"}
 MULTITHREADED = {"pRRT", "pSBL", "CForest", "AnytimePathShortening"}
 # The (asymmetric) Dubins space has hasSymmetricInterpolate() == false: the curve from b to a is not the reverse of the
-# curve from a to b.  Only planners that traverse every motion in the direction they validated it "support" it; the
-# others (two trees joined by reversing one of them, undirected roadmaps, rewiring through shared edge flags) are given
-# Reeds-Shepp only.  The symmetric Dubins variant is not used: its interpolation is not prefix-consistent (the curve
-# from a to an intermediate point of a->b may be the reversed b-side curve), so planners that keep the last valid state
-# of a partially valid motion (KPIECE1, LBKPIECE1) legitimately report unvalidated curves there - C07's subject.  (Trial on the unchanged tree: BKPIECE1, LBKPIECE1, SBL, EITstar,
-# EIRMstar, RRTXstatic, RRTsharp and AnytimePathShortening report paths on asymmetric Dubins whose reversed edges cross
-# obstacles; by design, not counted as findings.)
-DIRECTED_SAFE = {"RRT", "RRTConnect", "RRTstar", "InformedRRTstar", "SORRTstar", "LazyRRT", "TRRT", "LBTRRT", "RLRT", "EST",
-                 "ProjEST", "KPIECE1", "PDST", "STRIDE", "FMT", "SST", "pRRT"}
+# curve from a to b.  Which planners are run on it is derived from what their own source does about direction:
+#   DIRECTION_AWARE  - two trees, and the code validates goal-tree motions in the direction they are travelled
+#                      (RRTConnect.cpp: `tgi.start ? checkMotion(nmotion, dstate) : isValid(dstate) && checkMotion(dstate,
+#                      nmotion)`; BiTRRT.cpp: `tree == tStart_ ? checkMotion(nearest, toMotion) : isValid(toMotion) &&
+#                      checkMotion(toMotion, nearest)`, and the matching interpolate calls) - they claim support;
+#   FORWARD_ONLY     - one tree rooted at the start, every motion validated parent -> child, no rewiring: the path runs in
+#                      the direction every motion was validated;
+#   everything in NOT_ASYMMETRIC does not handle non-symmetric interpolation, with the reason; those run on Reeds-Shepp
+#   (symmetric) only.  The symmetric Dubins variant is not used: its interpolation is not prefix-consistent (C07).
+# Held to the strict oracle *in the direction of travel* on asymmetric Dubins: DIRECTION_AWARE + FORWARD_ONLY (minus the
+# NOT_STRICT ones, which get the gap / vertex forms).
+DIRECTION_AWARE = {"RRTConnect", "BiTRRT"}
+FORWARD_ONLY = {"RRT", "LazyRRT", "TRRT", "RLRT", "EST", "ProjEST", "KPIECE1", "PDST", "STRIDE", "FMT", "SST", "pRRT"}
+NOT_ASYMMETRIC = {
+    "RRTstar": "setup() warns: 'requires a state space with symmetric distance and symmetric interpolation'",
+    "InformedRRTstar": "derives from RRTstar (requires symmetric interpolation)",
+    "SORRTstar": "derives from RRTstar (requires symmetric interpolation)",
+    "RRTXstatic": "setup() warns: requires symmetric distance and interpolation",
+    "RRTsharp": "derives from RRTXstatic (requires symmetric interpolation)",
+    "LBTRRT": "rewires through a shared lower-bound graph (considerEdge / checkMotion(potential_parent, motion)); no symmetry handling",
+    "LazyLBTRRT": "undirected boost graphs; edges validated once, used in either direction",
+    "BiEST": "both trees call checkMotion(existing, xstate): goal-tree motions are validated parent -> child, travelled child -> parent",
+    "SBL": "both trees validate checkMotion(parent, child) in isPathValid; the goal tree is travelled child -> parent",
+    "pSBL": "as SBL",
+    "BKPIECE1": "both trees call checkMotion(existing, xstate, lastValid); no direction handling",
+    "LBKPIECE1": "isPathValid validates checkMotion(parent, child) for both trees",
+    "BiRLRT": "both trees call checkMotion(randomMotion, xmotion[, lastValid]); no direction handling",
+    "BFMT": "both trees call checkMotion(xMin, x); the backward tree is travelled against that direction",
+    "PRM": "undirected roadmap: an edge is validated once (checkMotion(n, m)) and used in either direction",
+    "PRMstar": "as PRM", "LazyPRM": "undirected roadmap (lazy)", "LazyPRMstar": "as LazyPRM",
+    "SPARS": "undirected roadmap", "SPARStwo": "undirected roadmap",
+    "BITstar": "undirected edge queue over an implicit RGG", "ABITstar": "as BITstar",
+    "AITstar": "forward and reverse searches share edge validity", "EITstar": "forward and reverse searches share edge validity",
+    "EIRMstar": "as EITstar",
+    "CForest": "runs RRTstar instances (requires symmetric interpolation)",
+    "AnytimePathShortening": "runs default planners (LBKPIECE1 / RRTConnect) and shortcuts with PathSimplifier; not direction-safe as a whole",
+}
+DIRECTED_SAFE = DIRECTION_AWARE | FORWARD_ONLY
+assert set(GEOMETRIC) == DIRECTED_SAFE | set(NOT_ASYMMETRIC) and not (DIRECTED_SAFE & set(NOT_ASYMMETRIC))
 
 
 def car_kind(name, k):
@@ -359,6 +394,66 @@ def gen_adversarial(r, which):
     return p
 
 
+# evaluation budgets of the short-motion class (tiny range => many nodes; these planners get slow with many nodes)
+SHORT_BUDGET = {"LBTRRT": 4000, "LazyPRM": 8000, "LazyPRMstar": 8000, "LazyLBTRRT": 8000}
+
+
+def gen_short_motion(r, wall):
+    """the "short-motion" class: range * sqrt(dim) <= longestValidSegment, so that every extension is a motion of ONE valid
+    segment (validSegmentCount == 1: only the end state is looked at), with a wall between start and goal that has a door.
+    wall = "thin": thinner than the resolution length (a state landing in it is an invalid vertex);
+    wall = "thick": 2.6 x the resolution length (tunnelling through it is an invalid stretch > 2 x resolution)."""
+    d = r.choice([2, 2, 3])
+    off = r.choice([0.0, 0.0, -2.0])
+    lo, hi = [off] * d, [off + 1.0] * d
+    res = r.choice([0.05, 0.08, 0.1])
+    ext = math.sqrt(d)
+    lvs = res * ext
+    rng = r.uniform(0.45, 0.85) * lvs / math.sqrt(d)
+    w = r.uniform(0.8, 1.6) * rng if wall == "thin" else 2.6 * lvs
+    if wall == "thin":
+        w = min(w, 0.9 * lvs)
+    x = off + r.uniform(0.4, 0.6)
+    door = 3.0 * lvs
+    y = off + r.uniform(0.25, 0.75)
+    big = 5.0
+    lo1 = [x - w / 2, off - big] + [off - big] * (d - 2)
+    hi1 = [x + w / 2, y - door / 2] + [off + big] * (d - 2)
+    lo2 = [x - w / 2, y + door / 2] + [off - big] * (d - 2)
+    hi2 = [x + w / 2, off + big] + [off + big] * (d - 2)
+    s = [off + r.uniform(0.15, 0.85) for _ in range(d)]
+    g = [off + r.uniform(0.15, 0.85) for _ in range(d)]
+    s[0], g[0] = off + r.uniform(0.08, 0.2), off + r.uniform(0.8, 0.92)
+    p = Problem("rv", lo, hi, d, [(lo1, hi1), (lo2, hi2)], res, [s], g, max(2.0 * rng, 0.04 * ext), "RRT", 0, 0, 0, rng=rng,
+                tag="short-motion:" + wall)
+    return p
+
+
+def gen_dubins_directed(r):
+    """asymmetric Dubins with a turning radius comparable to the obstacles and many small boxes: narrow passages around
+    which the curve b -> a is free while a -> b collides (and vice versa)."""
+    lo, hi = [0.0, 0.0], [1.0, 1.0]
+    boxes = []
+    for _ in range(r.range(7, 13)):
+        c = [r.uniform(0.05, 0.95), r.uniform(0.05, 0.95)]
+        h = [r.uniform(0.02, 0.09), r.uniform(0.02, 0.09)]
+        boxes.append(([c[0] - h[0], c[1] - h[1]], [c[0] + h[0], c[1] + h[1]]))
+    p = Problem("dubins", lo, hi, 2, boxes, r.choice([0.005, 0.01]), [], [], 0.0, "RRTConnect", 0, 0, 0,
+                rho=r.uniform(0.06, 0.16), tag="dubins-directed")
+
+    def pick():
+        for _ in range(300):
+            s = rand_state(r, "dubins", lo, hi)
+            if p.valid(s):
+                return s
+        p.boxes = []
+        return rand_state(r, "dubins", lo, hi)
+    p.starts = [pick()]
+    p.goal = pick()
+    p.thr = 0.05 * extent(p)
+    return p
+
+
 ADVERSARIAL = ["goal-in-obstacle", "start-on-bounds", "bad-starts", "zero-threshold", "range-zero", "range-tiny",
                "range-huge", "thin-corridor", "thin-walls", "start-is-goal"]
 
@@ -642,6 +737,8 @@ def check_solution(p, R, sol, top, fails, obs):
     if bad is not None:
         if is_strict(p):
             fails.append((pre + "strict", bad))
+        elif bad.startswith("path state") and strict_key(p) in VERTEX_VALID:
+            fails.append((pre + "vertex", bad))
         else:
             obs["nonstrict-planner-strict-miss"] = obs.get("nonstrict-planner-strict-miss", 0) + 1
 
@@ -1027,6 +1124,14 @@ def plan_quick(ck, names):
                                       tag="random", interm=(1 if name in ("RRT", "RRTConnect") and e == 1 else None)))
         if name in MULTILEVEL:
             continue
+        for wall in ("thin", "thick"):
+            sm = gen_short_motion(r, wall)
+            jobs.append(sm.clone(planner=name, seed=r.below(1000), budget=SHORT_BUDGET.get(name, 30000),
+                                 pollcap=pollcap_for(name, SHORT_BUDGET.get(name, 30000))))
+        if name in DIRECTION_AWARE:
+            for k in range(24):
+                dd = gen_dubins_directed(r)
+                jobs.append(dd.clone(planner=name, seed=r.below(100000), budget=8000, pollcap=pollcap_for(name, 8000)))
         for a in range(3):
             which = ADVERSARIAL[(pi * 3 + a + ck.seed) % len(ADVERSARIAL)]
             adv = gen_adversarial(r, which)
@@ -1051,6 +1156,15 @@ def plan_thorough(ck, names):
                                       interm=(1 if name in ("RRT", "RRTConnect") and e % 3 == 1 else None)))
         if name in MULTILEVEL:
             continue
+        for wall in ("thin", "thick"):
+            for rep in range(6):
+                sm = gen_short_motion(r, wall)
+                jobs.append(sm.clone(planner=name, seed=r.below(100000), budget=SHORT_BUDGET.get(name, 30000),
+                                     pollcap=pollcap_for(name, SHORT_BUDGET.get(name, 30000))))
+        if name in DIRECTION_AWARE:
+            for k in range(150):
+                dd = gen_dubins_directed(r)
+                jobs.append(dd.clone(planner=name, seed=r.below(100000), budget=8000, pollcap=pollcap_for(name, 8000)))
         for which in ADVERSARIAL:
             for rep in range(2):
                 adv = gen_adversarial(r, which)
@@ -1178,6 +1292,9 @@ def run(ck):
     for p, R in zip(jobs, results):
         if not judge(ck, hbin, p, R):
             bad += 1
+    ck.extra_cov["asymmetric_dubins_table"] = {"direction_aware": sorted(DIRECTION_AWARE), "forward_only": sorted(FORWARD_ONLY),
+                                               "not_asymmetric": NOT_ASYMMETRIC}
+    ck.extra_cov["vertex_valid_table"] = sorted(VERTEX_VALID)
     ck.extra_cov["strict_table"] = {"strict": [n for n in names if n not in NOT_STRICT], "not_strict": NOT_STRICT}
     ck.extra_cov["planners_run"] = len(names)
     return 0
